@@ -335,4 +335,96 @@ theorem gather_complete_l (world : Nat) (layersOf : Nat → List String) (inv : 
 theorem gather_once_l (world : Nat) (layersOf : Nat → List String) (inv : String → Nat) :
     (merged world layersOf inv).Nodup := nodup_eraseDups _
 
+/-! ### checkpoints, value level -/
+
+theorem lastWrite_none {α : Type} (n : String) (l : List (String × α)) (h : ∀ kv ∈ l, kv.1 ≠ n) :
+    lastWrite n l = none := by
+  induction l with
+  | nil => rfl
+  | cons kv t ih =>
+    obtain ⟨k, v⟩ := kv
+    have ht : lastWrite n t = none := ih fun kv hkv => h kv (List.mem_cons_of_mem _ hkv)
+    have hk : k ≠ n := h (k, v) List.mem_cons_self
+    simp [lastWrite, ht, hk]
+
+/-- if every write to key `n` carries the value `v` and there is at least one, the dict holds `v` -/
+theorem lastWrite_const {α : Type} (n : String) (v : α) (l : List (String × α))
+    (hall : ∀ kv ∈ l, kv.1 = n → kv.2 = v) (hex : ∃ kv ∈ l, kv.1 = n) : lastWrite n l = some v := by
+  induction l with
+  | nil => obtain ⟨kv, hkv, _⟩ := hex; cases hkv
+  | cons kv t ih =>
+    obtain ⟨k, w⟩ := kv
+    by_cases hexT : ∃ kv ∈ t, kv.1 = n
+    · have := ih (fun kv hkv => hall kv (List.mem_cons_of_mem _ hkv)) hexT
+      simp [lastWrite, this]
+    · have hnone : lastWrite n t = none :=
+        lastWrite_none n t fun kv hkv hk => hexT ⟨kv, hkv, hk⟩
+      obtain ⟨kv', hkv', hk'⟩ := hex
+      rcases List.mem_cons.mp hkv' with h | h
+      · subst h
+        have hw : w = v := hall (k, w) List.mem_cons_self hk'
+        simp only [] at hk'
+        simp [lastWrite, hnone, hk', hw]
+      · exact absurd ⟨kv', h, hk'⟩ hexT
+
+theorem mem_gathered {α : Type} (world : Nat) (layersOf : Nat → List String) (inv : String → Nat)
+    (held : Nat → String → α) (kv : String × α) :
+    kv ∈ gathered world layersOf inv held ↔
+      ∃ r, r < world ∧ kv.1 ∈ layersOf r ∧ inv kv.1 = r ∧ kv.2 = held r kv.1 := by
+  unfold gathered contribVals
+  simp only [List.mem_flatMap, List.mem_range, List.mem_map, mem_partition]
+  constructor
+  · rintro ⟨r, hr, n, ⟨hn, hi⟩, rfl⟩
+    exact ⟨r, hr, hn, hi, rfl⟩
+  · rintro ⟨r, hr, hn, hi, hv⟩
+    exact ⟨r, hr, kv.1, ⟨hn, hi⟩, by cases kv; simp_all⟩
+
+theorem merged_value_l {α : Type} (world : Nat) (layersOf : Nat → List String) (inv : String → Nat)
+    (held : Nat → String → α)
+    (h : ∀ r n, r < world → n ∈ layersOf r → inv n < world ∧ n ∈ layersOf (inv n))
+    (n : String) (hn : ∃ r, r < world ∧ n ∈ layersOf r) :
+    mergedVal world layersOf inv held n = some (held (inv n) n) := by
+  unfold mergedVal
+  apply lastWrite_const
+  · intro kv hkv hk
+    obtain ⟨r, _, _, hi, hv⟩ := (mem_gathered world layersOf inv held kv).mp hkv
+    rw [hv, ← hi, hk]
+  · obtain ⟨r, hr, hnr⟩ := hn
+    have := h r n hr hnr
+    exact ⟨(n, held (inv n) n), (mem_gathered _ _ _ _ _).mpr ⟨inv n, this.1, this.2, rfl, rfl⟩, rfl⟩
+
+theorem merged_value_none_l {α : Type} (world : Nat) (layersOf : Nat → List String) (inv : String → Nat)
+    (held : Nat → String → α) (n : String) (hn : ¬ ∃ r, r < world ∧ n ∈ layersOf r) :
+    mergedVal world layersOf inv held n = none := by
+  unfold mergedVal
+  apply lastWrite_none
+  intro kv hkv hk
+  obtain ⟨r, hr, hm, _, _⟩ := (mem_gathered world layersOf inv held kv).mp hkv
+  exact hn ⟨r, hr, hk ▸ hm⟩
+
+theorem loadVal_restored {α : Type} (layersOf : Nat → List String) (fw : Nat → String → Nat)
+    (state : String → Option α) (old : Nat → String → α) (r : Nat) (n : String) (v : α)
+    (hn : n ∈ layersOf r) (hfw : fw r n = r) (hs : state n = some v) :
+    loadVal layersOf fw state old r n = v := by
+  have : (restores layersOf fw r).contains n = true := by
+    simpa using (mem_restores layersOf fw r n).mpr ⟨hn, hfw⟩
+  rw [loadVal, if_pos this, hs]; rfl
+
+theorem loadVal_frame {α : Type} (layersOf : Nat → List String) (fw : Nat → String → Nat)
+    (state : String → Option α) (old : Nat → String → α) (r : Nat) (n : String)
+    (h : n ∉ layersOf r ∨ fw r n ≠ r) : loadVal layersOf fw state old r n = old r n := by
+  have : (restores layersOf fw r).contains n = false := by
+    have : n ∉ restores layersOf fw r := fun hm => by
+      have := (mem_restores layersOf fw r n).mp hm
+      rcases h with h | h
+      · exact h this.1
+      · exact h this.2
+    simpa using this
+  rw [loadVal, if_neg (by rw [this]; exact Bool.false_ne_true)]
+
+theorem loadVal_absent {α : Type} (layersOf : Nat → List String) (fw : Nat → String → Nat)
+    (state : String → Option α) (old : Nat → String → α) (r : Nat) (n : String)
+    (hs : state n = none) : loadVal layersOf fw state old r n = old r n := by
+  unfold loadVal; split <;> simp [hs]
+
 end KV.NeoxL
